@@ -386,15 +386,14 @@ fn main() {
             fcases.push((format!("{key}#{ci}"), (c.clone(), chunk.to_vec(), distinct)));
         }
     }
-    // quick: the first tuple of an operation gets {+1, random}, the distinct-operand tuple gets
-    // {zero, 1-v}; thorough: every tuple gets the full fault set
-    let faults_a: Vec<_> = faults.iter().filter(|(n, _)| tier.is_thorough() || ["+1", "zero", "random"].contains(n)).cloned().collect();
+    // quick: fault values {+1, zero}; thorough: every tuple gets the full fault set
+    let faults_a: Vec<_> = faults.iter().filter(|(n, _)| tier.is_thorough() || ["+1", "zero"].contains(n)).cloned().collect();
     let faults_b = faults_a.clone();
     // ---- phase 3: 2 deviations for small operations (N <= 40): all pairs x {+1, zero, 1-v}^2
     let f2: Vec<_> = vgad::default_faults(seed).into_iter().filter(|(n, _)| ["+1", "zero", "1-v"].contains(n)).collect();
     let mut pcases: Vec<(String, (Case, Vec<(u64, u64)>))> = vec![];
     let mut seen_ops: std::collections::HashSet<String> = Default::default();
-    let max_n = tier.pick(12u64, 40u64);
+    let max_n = tier.pick(11u64, 40u64);
     for (key, c) in &cases {
         let Some(n) = nassign.get(key) else { continue };
         if *n > max_n || *n < 2 {
@@ -463,11 +462,19 @@ fn main() {
                     let idxs: Vec<u64> = (3..*n).step_by(stride as usize).collect();
                     // plus the first assignment of every cell kind (region name, column, offset):
                     // the circuit is ~10^4..10^5 assignments of a few hundred kinds
-                    // (quick: for the longest sequence only, one fault value; thorough: all sequences)
+                    // (thorough tier only: the quick tier has no room for it)
                     let is_last = mcases.last().map(|(kk, _)| kk == key).unwrap_or(false);
-                    if tier.is_thorough() || is_last {
+                    let _ = is_last;
+                    if tier.is_thorough() {
                         if let Some(kinds) = vcore::in_pool(1, || vgad::trace_kinds(c, *k)) {
-                            let reps: Vec<u64> = vgad::kind_representatives(&kinds, 1).into_iter().filter(|i| !idxs.contains(i)).collect();
+                            // (quick: every other kind)
+                            let reps: Vec<u64> = vgad::kind_representatives(&kinds, 1)
+                                .into_iter()
+                                .filter(|i| !idxs.contains(i))
+                                .enumerate()
+                                .filter(|(j, _)| tier.is_thorough() || j % 2 == 0)
+                                .map(|(_, i)| i)
+                                .collect();
                             cx.note(format!("map gadget {key}: {} cell kinds, {} indices beyond the stride", kinds.len(), reps.len()));
                             for (ci, chunk) in reps.chunks(8).enumerate() {
                                 mkf.push((format!("{key}#k{ci}"), (c.clone(), *k, chunk.to_vec())));
@@ -570,7 +577,7 @@ fn main() {
         }
         cx.run_cases("scratch-faults", &sf, |(c, idxs)| {
             let mut out = CaseOut::batch();
-            vgad::explore_faults(c, sk, idxs, &faults, &mut out);
+            vgad::explore_faults(c, sk, idxs, if tier.is_thorough() { &faults[..] } else { &faults_a[..] }, &mut out);
             out
         });
         cx.run_cases("scratch-pairs", &sp, |(c, pairs)| {
